@@ -53,6 +53,31 @@ CHECKS = {
         note='Trusted: Coq kernel; gen_tables.py; extraction + OCaml; differential harness. Slices with step != 1 are not modelled; for '
              'SSH name-lists the separators are not part of _items_size (observation recorded in DESIGN.md).',
         technique='Coq proof (invariant by induction over operation sequences + refinement to plain lists); extracted-model vs implementation histories'),
+    'C03': dict(
+        category='proof',
+        text='Coq theorems for a generic header+declared-length frame (proved once) instantiated at TlsRecord, the TLS handshake message '
+             'header, MySQLRecord, TPKT, OpenVPN-TCP, PostgreSQL SslRequest and Sync: for every buffer 0 < n <= len, n = the length the '
+             'header declares, the result depends only on the first n bytes (any suffix), composed frames parse back with any suffix; and '
+             'the entry-point laws (exact-size iff n = len, in-place removes exactly n bytes, failure leaves the buffer). Tie: extracted '
+             'model vs implementation on composed / suffixed / concatenated / corrupted frames through the three entry points. SSL 2.0 '
+             'records, SSH packets and banner, LDAP and all non-framing classes are covered by an implementation-only sweep of the same '
+             'predicates over all 367 classes reached by the repository tests (exploration supporting the search, not a theorem).',
+        design_ref='DESIGN.md section 6, C03',
+        note='Trusted: Coq kernel; gen_tables.py; extraction + OCaml; differential harness; payloads of framing units modelled as opaque bytes.',
+        technique='Coq proof (generic frame lemmas + per-unit instantiation); extracted-model vs implementation differential run; all-class predicate sweep'),
+    'C04': dict(
+        category='proof',
+        text='Coq theorem by induction over the chunk list: for any framing unit whose frames round-trip with a suffix and whose proper '
+             'prefixes are rejected with 1 <= missing <= really missing, and for every fragmentation of the stream, the reader (wait exactly '
+             'the reported bytes, retry) never fails, never accepts a proper prefix, never waits beyond the record in progress and emits '
+             'exactly the original sequence; instantiated for all LV framing units through their prefix lemmas. Tie: every proper prefix of '
+             'composed frames and reader traces (wait target after each chunk) on 1-byte / few / many-chunk deliveries, extracted model vs a '
+             'Python reader loop over parse_mutable; plus an implementation-only sweep (all prefixes, random chunkings) over all '
+             'framing-unit classes reached by the repository tests (SSL 2.0, SSH, LDAP included).',
+        design_ref='DESIGN.md section 6, C04',
+        note='Trusted: Coq kernel; extraction + OCaml; differential harness. Known finding: the SSH identification string parser answers '
+             'InvalidValue for a banner not yet terminated by LF (pinned by an existing test).',
+        technique='Coq proof (reader invariant by induction over chunks, generic in the framing unit); extracted reader vs Python reader loop; prefix sweep'),
 }
 
 NOT_YET = {}
